@@ -205,6 +205,13 @@ fn sigmf_inputs(opts: &Opts, rep: &mut Report, rng: &mut Rng) {
         r#"{"global":{"core:datatype":"cf32_le","core:version":"1.1.0","core:sample_rate":-1},"captures":[{"core:sample_start":18446744073709551616}]}"#.into(),
         r#"{"global":{"core:datatype":"cf32_le","core:version":"1.1.0"},"captures":[{"core:sample_start":-5,"core:header_bytes":99999999999999999999}]}"#.into(),
         r#"{"global":[],"captures":{}}"#.into(),
+        // free-form text where a fixed ASCII token is expected (multi-byte characters
+        // at every offset from the end)
+        "{\"global\":{\"core:datatype\":\"cf32\u{1F4E1}\",\"core:version\":\"1.1.0\"},\"captures\":[],\"annotations\":[]}".into(),
+        "{\"global\":{\"core:datatype\":\"cf3\u{20AC}e\",\"core:version\":\"1.1.0\"},\"captures\":[],\"annotations\":[]}".into(),
+        "{\"global\":{\"core:datatype\":\"cf32\u{E9}le\",\"core:version\":\"1.1.0\"},\"captures\":[],\"annotations\":[]}".into(),
+        "{\"global\":{\"core:datatype\":\"\u{E9}\",\"core:version\":\"\u{1F4E1}\u{1F4E1}\"},\"captures\":[],\"annotations\":[]}".into(),
+        "{\"global\":{\"core:datatype\":\"rf32_l\u{E9}\",\"core:version\":\"1.1.0\"},\"captures\":[{\"core:sample_start\":0}],\"annotations\":[]}".into(),
         r#"[]"#.into(),
         r#"{"#.into(),
         "".into(),
@@ -310,7 +317,13 @@ fn sigmf_inputs(opts: &Opts, rep: &mut Report, rng: &mut Rng) {
         };
         let replay = json!({"part": "sigmf", "kind": kind, "case_seed": seed.to_string()});
         rec::stream_size(rec::PAGE);
-        let built = catch(|| SigMFSourceBuilder::<f32>::new(path.clone()).ignore_type_error().build());
+        // with and without the declared-type check (it parses the datatype string)
+        let strict = (k / 8) % 2 == 0;
+        rep.count(if strict { "sigmf_opened_with_type_check" } else { "sigmf_opened_ignoring_the_type" }, 1);
+        let built = catch(|| {
+            let b = SigMFSourceBuilder::<f32>::new(path.clone());
+            if strict { b.build() } else { b.ignore_type_error().build() }
+        });
         rec::stream_size(0);
         match built {
             Err(p) => rep.violation(format!("C15|SigMFSource(open)|panic|{}", sig_of_msg(&p)), format!("opening panicked: {p} (input kind {kind})"), replay),
